@@ -29,7 +29,7 @@ type VCtx struct {
 }
 
 func VerifCtx(c *Context) VCtx {
-	d := VCtx{Path: c.ref.GetPath(), State: c.state, Zombie: c.zombie, Restarting: c.restarting != nil, Stash: len(c.stash), Behaviors: c.behaviorStack.Len()}
+	d := VCtx{Path: c.ref.GetPath(), State: c.state, Zombie: c.zombie, Restarting: c.restarting != nil, Stash: len(c.stash), Behaviors: len(c.behaviorStack.behaviors)}
 	for p := range c.children {
 		d.Children = append(d.Children, p)
 	}
